@@ -431,7 +431,13 @@ func genScripts(t *rapid.T, ops []opSpec, withConnLevel bool) map[string][]sim.O
 			}
 		}
 		if rapid.IntRange(0, 2).Draw(t, "fatal") == 0 {
-			outs = append(outs, sim.Outcome{Kind: "exc", Class: appExc, Stack: "scripted"})
+			// (what the server's stack trace goes on to say is text: only the class decides what the client does)
+			stack := "scripted"
+			if rapid.Bool().Draw(t, "fatalcause") {
+				cause := rapid.SampledFrom([]string{sim.TooBusy, sim.NSRE, sim.RSStopped, sim.CallQueueBig, sim.RegionMoved}).Draw(t, "causeclass")
+				stack = "scripted\n\tat org.apache.hadoop.hbase.regionserver.HRegion.batchMutate(HRegion.java:1)\nCaused by: " + cause + ": wrapped\n\tat org.apache.hadoop.hbase.regionserver.HRegion.put(HRegion.java:2)\n\t... 9 more"
+			}
+			outs = append(outs, sim.Outcome{Kind: "exc", Class: rapid.SampledFrom([]string{appExc, appExc, sim.DoNotRetry}).Draw(t, "fatalclass"), Stack: stack})
 		} else {
 			outs = append(outs, sim.Outcome{Kind: "ok"})
 		}
